@@ -135,6 +135,8 @@ Record tattr := { ta_names : bool; ta_attrs : list attr }.
 Record wrapspec := { w_encrypt : bool; w_eki : option (option Z * bool); w_mski : bool; w_attr_names : bool; w_no_encoding : bool }.
 Inductive secret_s :=
 | SecKey (otype kft : Z) (length_ok : bool) (shape : Z) (alg len : Z)
+         (missing : Z)   (* optional Key Block parts left out: 0 none, 1 algorithm, 2 length, 3 both, 4 key value *)
+         (big : bool)    (* Prime Field Size (a KMIP Big Integer) outside SQLite's signed 64-bit range *)
 | SecCert (ctype : Z)
 | SecOther (otype : Z).
 
@@ -278,9 +280,10 @@ Definition set_attribute (t : target) (n : string) (vals : list attr) : target +
   | o => inr o
   end.
 
+(* Go = every attribute was written (the handler goes on to commit); Done = a KmipError was raised *)
 Fixpoint set_attributes (t : target) (d : tdict) : outcome :=
   match d with
-  | [] => Done
+  | [] => Go
   | (n, vals) :: rest =>
     q_applicable (t_otype t) n (fun ok =>
       if ok then match set_attribute t n vals with
@@ -384,7 +387,7 @@ Definition h_create_key_pair (v : version) (cr : cres) (common priv pub : option
         if negb (a_val l1 =? a_val l2) then Done else
         crypto cr
           (match set_attributes (fresh "PublicKey" OT_PUBLIC_KEY (Some (a_val a1)) (Some (a_val l1))) dpub with
-           | Done => set_attributes (fresh "PrivateKey" OT_PRIVATE_KEY (Some (a_val a1)) (Some (a_val l1))) dpriv
+           | Go => set_attributes (fresh "PrivateKey" OT_PRIVATE_KEY (Some (a_val a1)) (Some (a_val l1))) dpriv
            | c => c
            end)
     | _, _, _, _, _, _ => Done
@@ -399,15 +402,28 @@ Fixpoint assoc_key (k : Z * Z * bool * Z) (l : list ((Z * Z * bool * Z) * option
       if (a =? a') && (b =? b') && Bool.eqb c c' && (d =? d') then Some r else assoc_key k t
   end.
 
+Fixpoint assoc_zz {A} (k : Z * Z) (l : list ((Z * Z) * A)) : option A :=
+  match l with
+  | [] => None
+  | ((a, b), r) :: t => if (a =? fst k) && (b =? snd k) then Some r else assoc_zz k t
+  end.
+
+(* Some None = converted; Some (Some "kmip") = the conversion raised an exception class _process_register turns into
+   INVALID_FIELD; Some (Some site) = it raised something else there *)
+Definition KMIP_ERROR := "kmip".
 Definition convert (sec : secret_s) : option (option string) :=
   match sec with
-  | SecKey otype kft length_ok shape _ _ => assoc_key (otype, kft, length_ok, shape) convert_key_table
+  | SecKey otype kft length_ok shape _ _ missing _ =>
+      if missing =? 0 then assoc_key (otype, kft, length_ok, shape) convert_key_table
+      else assoc_zz (otype, missing) convert_missing_table
   | SecCert ctype => assoc_z ctype convert_cert_table
   | SecOther otype => assoc_z otype convert_other_table
   end.
 
 Definition sec_otype (sec : secret_s) : Z :=
-  match sec with SecKey otype _ _ _ _ _ => otype | SecCert _ => OT_CERTIFICATE | SecOther otype => otype end.
+  match sec with SecKey otype _ _ _ _ _ _ _ => otype | SecCert _ => OT_CERTIFICATE | SecOther otype => otype end.
+Definition sec_big (sec : secret_s) : bool := match sec with SecKey _ _ _ _ _ _ _ b => b | _ => false end.
+Definition OVERFLOW_SITE := "services/server/engine.py:_process_register:OverflowError".
 
 Definition h_register (v : version) (otype : Z) (sec : option secret_s) (ta : option tattr) : outcome :=
   match class_of otype with
@@ -421,14 +437,19 @@ Definition h_register (v : version) (otype : Z) (sec : option secret_s) (ta : op
       | inl d =>
         match convert sec with
         | None => Crash "model:convert-table-has-no-entry"
-        | Some (Some site) => unguarded "register-convert" site
+        | Some (Some site) => if String.eqb site KMIP_ERROR then Done else Crash site
         | Some None =>
+          (* a repaired pie SplitKey refuses a prime field size SQLite cannot store while it is constructed *)
+          if sec_big sec && negb (defect "register-bigint-overflow") then Done else
           (* the pie class comes from the SECRET's type, not from payload.object_type *)
           match class_of (sec_otype sec) with
           | None => Crash "model:no-class-for-secret"
           | Some cls =>
-            let '(alg, len) := match sec with SecKey _ _ _ _ a l => (Some a, Some l) | _ => (None, None) end in
-            set_attributes (fresh cls (sec_otype sec) alg len) d
+            let '(alg, len) := match sec with SecKey _ _ _ _ a l _ _ => (Some a, Some l) | _ => (None, None) end in
+            match set_attributes (fresh cls (sec_otype sec) alg len) d with
+            | Go => if sec_big sec then Crash OVERFLOW_SITE (* session.commit() *) else Go
+            | o => o
+            end
           end
         end
       end
